@@ -8,7 +8,7 @@ import torch
 
 from aggs import catalogue
 from common import Ctx, classify_exc
-from matrices import m_int, m_svd, m_unit, to_tensor
+from matrices import m_int, m_svd, m_unit, to_tensor, ulp
 from prop_C03 import TRUSTED
 from prop_C08 import attempt, relerr, well_conditioned
 
@@ -81,6 +81,16 @@ def one_linear(ctx: Ctx, spec, dtype):
                 c1 = torch.tensor([hi() if float(v) > 0 else lo() for v in pr], dtype=torch.float64)
                 c2 = torch.tensor([lo() if float(v) > 0 else hi() for v in pr], dtype=torch.float64)
                 ctx.count("family", "ConFIG:sign-changing-total")
+    if spec.name == "ConFIG":
+        # decision margin (§4.2): ConFIG normalises `pinv(unit rows) @ weights` and tests that vector for EXACT zero; when
+        # it vanishes in exact arithmetic (rows that cancel pairwise under the weights) the computed one is rounding noise
+        # with an arbitrary direction — the definition is discontinuous there and nothing is concluded
+        Un = Jt / Jt.norm(dim=1, keepdim=True)
+        wv = torch.tensor([float(v) for v in pv], dtype=torch.float64) if pv is not None else torch.ones(len(J), dtype=torch.float64)
+        bd = torch.linalg.pinv(Un) @ wv
+        if float(bd.norm()) < 1e-4 * float(wv.norm()):
+            ctx.count("skipped_low_margin", "ConFIG: best direction vanishes")
+            return
     outs = []
     for c in (c1, c2, a * c1 + b * c2):
         st, x = attempt(A, (c[:, None] * Jt).to(dtype), seed)
@@ -89,7 +99,9 @@ def one_linear(ctx: Ctx, spec, dtype):
             return
         outs.append(x.double())
     lhs, rhs = outs[2], a * outs[0] + b * outs[1]
-    tol = (5e-3 if dtype == torch.float32 else 1e-8) * (100 if spec.name == "ConFIG" else 1)
+    # relative to the magnitude of the terms; measured on the unchanged tree (evidence: worst_linearity_defect): <= 3 ulp,
+    # ConFIG (a pseudo-inverse in between) <= 7 ulp — the allowance is 2048 ulp (ConFIG: 32768 ulp)
+    tol = ulp(dtype) * (32768 if spec.name == "ConFIG" else 2048)
     ctx.case((spec.name, str(J), str(pv), str(dtype), seed), nontrivial=True,
              sample={"aggregator": spec.name, "J": [[str(v) for v in r] for r in J], "c1": c1.tolist(), "c2": c2.tolist(), "a": a, "b": b})
     ctx.count("linear_checked", spec.name)
@@ -99,6 +111,8 @@ def one_linear(ctx: Ctx, spec, dtype):
     sc = max(float((a * outs[0]).abs().max()), float((b * outs[1]).abs().max()),
              float(((a * c1 + b * c2)[:, None] * Jt).abs().max()), 1e-300)
     e2 = float((lhs - rhs).abs().max()) / sc
+    _k = f"worst_linearity_defect:{spec.name}:{str(dtype)[6:]}"
+    ctx.cov[_k] = max(ctx.cov.get(_k, 0.0), e2)
     if e2 > tol:
         ctx.violation(f"{spec.name}: A(diag(a c1 + b c2) J) differs from a A(diag(c1) J) + b A(diag(c2) J) by {e2:.3e} "
                       f"(relative to the terms)",
